@@ -56,6 +56,9 @@ def main():
     ap.add_argument("--tier", default=os.environ.get("VERIF_TIER", "quick"), choices=["quick", "thorough"])
     ap.add_argument("--replay", default=None)
     args = ap.parse_args()
+    if args.replay and not os.path.isabs(args.replay):
+        cand = [os.path.abspath(args.replay), os.path.join(C.VERIF, args.replay), os.path.join(C.OUT, args.replay)]
+        args.replay = next((c for c in cand if os.path.exists(c)), cand[0])
     pid = args.prop.upper()
     tier = args.tier
     seed = C.get_seed()
